@@ -1,14 +1,16 @@
-SPECIFICATION Spec
+SPECIFICATION GSpec
 CONSTANTS
-  Page = {p1, p2}
+  Page = {"1", "2"}
   MaxIdx = 4
-  MaxSnapOps = 4
-  MaxCrashes = 0
-  AllowRecover = FALSE
+  MaxSnapOps = 3
+  MaxCrashes = 1
+  AllowRecover = TRUE
   FingerprintGate = TRUE
   FPVouchesForVisible = TRUE
-  CleanStagingOnNewBase = FALSE
+  CleanStagingOnNewBase = TRUE
   FullAfterLoad = TRUE
   RecoverDiscardsFile = TRUE
   ClearFlagOnlyIfCovers = TRUE
 INVARIANTS LiveOK Rebuild
+CONSTRAINT Emit
+VIEW View
